@@ -143,7 +143,12 @@ def crash_tags(world):
 
 
 def run(ch, ctx):
-    cfg = gen_config(ch, BIAS)
+    bias = dict(BIAS)
+    if ch.chance('c07.uniform_autos', 1, 2):
+        bias['autos_mask'] = ch.pick('c07.autos_mask', 1 << 11)      # every one of the 2^11 subsets equally likely
+    cfg = gen_config(ch, bias)
+    ctx.tag('automation_subset', cfg['autos'])
+    ctx.tag('variant_x_players', '%s/%d' % (cfg['variant'], cfg['n']))
     mon = PhaseMonitor(cfg)
     world = None
     try:
@@ -166,7 +171,7 @@ def run(ch, ctx):
         raise
     st = world.state
     seq = opseq(st)
-    ctx.count('autos_mask_%d' % 0, 0)
+    ctx.count('automations_on_%02d' % bin(cfg['autos']).count('1'))      # how many of the 11 automations are on
     ctx.notes = {}
     ctx.count('showdowns', 's' in seq)
     ctx.count('runouts_gt1', (st.runout_count or 1) > 1)
